@@ -728,6 +728,54 @@ theorem c11_maximize_negates {K : Type} [LinearOrder K] [InvolutiveNeg K]
 
 end wrapper_theorems
 
+/-! ## COBYLA: bounds as inequality constraints -/
+
+section cobyla
+variable {K : Type} [AddCommGroup K] [LinearOrder K] [IsOrderedAddMonoid K]
+
+namespace C11
+/-- the inequality constraint `g` is defined and satisfied (`g x ≥ 0`) at `x` -/
+def Sat (g : List K → Option K) (x : List K) : Prop := ∃ v, g x = some v ∧ 0 ≤ v
+
+theorem cobylaFrom_iff : ∀ (bs : List (K × K)) (pre xs : List K), xs.length = bs.length →
+    ((∀ g ∈ cobylaConstraintsFrom pre.length bs, Sat g (pre ++ xs)) ↔ AllIn xs bs)
+  | [], pre, [], _ => by simp [cobylaConstraintsFrom, AllIn]
+  | [], _, _ :: _, h => by simp at h
+  | _ :: _, _, [], h => by simp at h
+  | b :: bs, pre, x :: xs, h => by
+    have hget : (pre ++ x :: xs)[pre.length]? = some x := by simp
+    have ih := cobylaFrom_iff bs (pre ++ [x]) xs (by simpa using h)
+    simp only [List.length_append, List.length_singleton, List.append_assoc, List.singleton_append] at ih
+    simp only [cobylaConstraintsFrom, List.mem_cons, forall_eq_or_imp, AllIn, Sat, hget, Option.map_some,
+      Option.some.injEq, exists_eq_left', sub_nonneg]
+    unfold Sat at ih
+    rw [ih]
+    tauto
+end C11
+
+/-- **COBYLA constraints = the bounds**: all `2n` inequality constraints built from the bounds are
+satisfied at `x` exactly when every `x[i]` lies within *its own* bounds `(lo_i, hi_i)`. -/
+theorem c11_cobyla_constraints_iff (bounds : List (K × K)) (x : List K) (h : x.length = bounds.length) :
+    (∀ g ∈ cobylaConstraints bounds, C11.Sat g x) ↔ C11.AllIn x bounds := by
+  have := C11.cobylaFrom_iff bounds [] x h
+  simpa [cobylaConstraints] using this
+
+omit [LinearOrder K] [IsOrderedAddMonoid K] in
+/-- there are two constraints per parameter -/
+theorem c11_cobyla_constraints_length (bounds : List (K × K)) :
+    (cobylaConstraints bounds).length = 2 * bounds.length := by
+  have : ∀ (i : Nat) (bs : List (K × K)), (cobylaConstraintsFrom i bs).length = 2 * bs.length := by
+    intro i bs
+    induction bs generalizing i with
+    | nil => rfl
+    | cons b bs ih => simp only [cobylaConstraintsFrom, List.length_cons, ih]; omega
+  exact this 0 bounds
+
+example : (cobylaConstraints [((0 : ℤ), (1 : ℤ)), (2, 3)]).map (fun g => g [5, 2]) =
+    [some 5, some (-4), some 0, some 1] := rfl
+
+end cobyla
+
 /-! ## Part 2 — sign of the slope at a forced bound (ordered field), optimality (ℝ, convex) -/
 
 section field
